@@ -1,6 +1,7 @@
 //! Correspondence harness: runs the real crate (built from /repo's working tree) on generated
 //! inputs and dumps what it observed as JSON lines. It judges nothing.
 mod arith;
+mod brain;
 mod comp;
 mod formula;
 mod peak;
@@ -19,6 +20,7 @@ fn main() {
         "peak" => peak::run(&rest),
         "comp" => comp::run(&rest),
         "arith" => arith::run(&rest),
+        "brain" => brain::run(&rest),
         "formula" => formula::run(&rest),
         "poisson" => poisson::run(&rest),
         _ => {
